@@ -33,7 +33,7 @@ class Shapes:
     def of(self, tyname):
         """'Length<NumericType>' -> ('Length', 1);  'NumericType' -> (None, 1); unknown -> None"""
         t = tyname.strip()
-        if t in ('NumericType', 'const NumericType'):
+        if t in ('NumericType', 'const NumericType', 'OtherNumericType', 'double', 'float', 'long double'):
             return (None, 1)
         q = INV.qname(t)
         if q and q in self.shape:
